@@ -69,6 +69,13 @@ CHECKS = {
         note="the wrapped seams are assumed to be the only ways target() touches the outside world",
         technique="exhaustive single-fault (and ordered pair) injection over the configuration grid with effect-trace monitors",
     ),
+    "C11": dict(
+        category="exploration",
+        text="Complete products of 88 argument/language positions x 42 hostile or expensive expressions, 57 statement kinds x 9 scopes, constant-growth and deep-nesting scripts, and ALL noise strings up to length 3 (4 thorough) over a 20-symbol structural alphabet (as file, inside 5 block kinds, as argument text); each input transpiled in an isolated interpreter under sys.addaudithook with hard time and memory limits; oracle: outcome in {text, ValueError, SyntaxError only for non-Python}, no exec/open/process/network/import event, canary untouched, prompt, module-state fingerprint unchanged.",
+        design_ref="DESIGN.md §2 C11",
+        note="audit events are assumed to reveal host-side execution and side effects; 6 s hard / 2 s soft limit, 3 GiB address space",
+        technique="exhaustive enumeration of position x expression products and all short noise strings under an audit-hook sandbox",
+    ),
 }
 
 NOT_YET = {}
